@@ -166,3 +166,20 @@ pub fn memo_sequence() -> Vec<NaiveDate> {
     v.push(mk_date(days_from_civil(2016, 12, 31))); v.push(mk_date(days_from_civil(2015, 12, 31))); v.push(mk_date(days_from_civil(2016, 12, 30)));
     v
 }
+
+/// Points of every binary scale of the date range: an intermediate value of 8, 16, 24 or 32 bits (a year, a day count, a month count)
+/// overflows or changes representation at a power of two in the MIDDLE of the range, far from the range ends that the lattices cover.
+/// Day numbers of 1 January / 2 July / 31 December of the years +-(2^k - 1), +-2^k, +-(2^k + 1), +-3*2^(k-1), and the day numbers
+/// +-2^k - 1, +-2^k, +-2^k + 1 themselves.
+pub fn scale_days() -> Vec<i64> {
+    let (lo, hi) = (-95_746_129i64, 95_745_399i64);
+    let mut v = Vec::new();
+    for k in 6..=17u32 { for y in [(1i64 << k) - 1, 1 << k, (1 << k) + 1, 3 << (k - 1)] { for s in [1i64, -1] {
+        let yy = (s * y) as i32;
+        if yy < -262_143 || yy > 262_142 { continue; }
+        for (m, d) in [(1u32, 1u32), (7, 2), (12, 31)] { v.push(days_from_civil(yy, m, d)); }
+    } } }
+    for k in 8..=26u32 { for d in [-1i64, 0, 1] { for s in [1i64, -1] { let n = s * (1i64 << k) + d; if n >= lo && n <= hi { v.push(n); } } } }
+    v.sort(); v.dedup();
+    v
+}
